@@ -21,8 +21,8 @@ CHECKS = {
  "C06": ("reference-model monitor: Pearson / Kendall tau-a / centre-of-gravity of the current window from the recorded history in exact arithmetic; negation and order-only (strictly increasing maps) relations",
          "Held on the executions explored: CTI, NET, CoG x N 3..64 x 12 input classes + partially shuffled streams.",
          "CTI at the exact scalar compared to 1e-12 (irrational root); f64 steps inside the cancellation envelope left to C07/C16"),
- "C07": ("range automaton on every Some output (f64, f32 in thorough; 16 ulps of the bound), Min/Max sandwich with real Min/Max views, Drawdown monotonicity; violations classified by the exact oracle on the failing window (predicates of the known findings)",
-         "Held on the executions explored except for four recorded known findings (PFE's defining formula, Vsct residue, Sma/Alma running-sum residue): 16 documented ranges + sandwich + Drawdown x N 2..64 (+257) x 14 adversarial input classes, a quarter rescaled over 2^60, a third off the dyadic grid, streams to 1e5.",
+ "C07": ("range automaton on every Some output (f64 and f32; 16 ulps of the bound), Min/Max sandwich with real Min/Max views, Drawdown monotonicity; violations classified by the exact oracle on the failing window (predicates of the known findings)",
+         "Held on the executions explored except for five recorded known findings (PFE's defining formula, Vsct residue, Sma/Alma running-sum residue, CoG's N-ulp excess): 16 documented ranges + sandwich + Drawdown x N 2..64 (+257) x 14 adversarial input classes, a quarter rescaled over 2^60, a third off the dyadic grid, streams to 1e5.",
          "'a few ulps' = 16 ulps of the bound; known findings are matched on (view, clause, exact-oracle predicate)"),
  "C08": ("readiness automaton per node (Taps on every node of single views and chains) + documented warm-up table + Script children that deliver nothing; dev and release profiles, three scalars",
          "Held on the executions explored: every view x N grid x degenerate input classes, chains, long runs (1e4 quick / 1e6 thorough updates). 'For ever' is restated as no relapse and no non-finite value within those run lengths; no finite run decides the unbounded claim.",
